@@ -72,11 +72,15 @@ def run(pid, tier):
         if expect not in got[len(recs) + k + 1]:
             raise ToolError('judge vacuity: %s not rejected' % expect)
     verdict = common.Verdict(pid)
+    differs = 0
     for name, idx, rid in jr.fails:
         i = int(idx)
         if i > len(recs):
             continue
         r = res[i - 1]
+        if name == 'SlotAsModel':
+            differs += 1        # conformance with the exact model of the posterior: reported, not a verdict (the statement asks for a valid state)
+            continue
         verdict.add('C18/%s/%s' % (name, recs[i - 1]['kind']), 'case %s: %s -> %s' % (rid, json.dumps(cases[i - 1]['case'])[:250], json.dumps(r)[:350]), {'case': cases[i - 1]['case'], 'observed': r})
     rc = verdict.finish()
     kinds = collections.Counter(r['kind'] for r in recs)
@@ -87,7 +91,7 @@ def run(pid, tier):
            'samples': [{'case': cases[5]['case'], 'observed': res[5]}], 'exhaustive': False, 'cases_by_kind': dict(kinds), 'model_states': mc.distinct,
            'variation_windows_on_an_exact_tie_skipped': sum(sum(1 for t in r['case']['tie'] if t) for r in recs if r['kind'] == 'minvar'),
            'selector_searches': sum(r['picks'] for r in dyn), 'selector_max_reward': max([r['maxRewardK'] for r in dyn] or [0]) / 1000.0,
-           'canaries_rejected': len(cans), 'known_finding_hits': {k: len(v) for k, v in verdict.known_hits.items()}}
+           'slot_states_differing_from_the_exact_model': differs, 'canaries_rejected': len(cans), 'known_finding_hits': {k: len(v) for k, v in verdict.known_hits.items()}}
     common.write_evidence(pid, tier, 'model_checking', cov, time.time() - t0, len(verdict.violations),
                           ['exact stratum: integer rewards {0,1,2,5}, up to 4 updates (the integer model is exact only there); palette stratum: the invariants are evaluated by the harness in f64 (TLC reads no floating point), hull tolerance 1e-12 * max(1, largest reward) (the running mean starts from the prior mean 1, so its rounding error is absolute at that scale); '
                            'variation criterion: sample windows only (the period variant depends on wall-clock time), windows whose verdict is an exact tie with the threshold are not compared; reward range: 0 .. 27 for two objectives (derived from the constants in dynamic_selective.rs)'])
